@@ -439,6 +439,18 @@ def weave(text, spec):
             text = text[:a] + nb + text[b:]
             toks = tokenize(text)
             i, lb, rb = find_function(toks, fname)
+        # stated rewrites of a non-ISO idiom into the equivalent well-defined expression (must match exactly once; every rewrite is
+        # listed with its reason in the unit's assumptions by the unit author): the verified text differs from the real text in exactly these spots
+        for pat, rep, reason in fs.get('rewrites', []):
+            a, b = toks[lb][2], toks[rb][3]
+            body = text[a:b]
+            nb, cnt = re.subn(pat, rep, body)
+            if cnt != 1:
+                raise WeaveError('%s: rewrite anchor %r matched %d times (must be exactly 1)' % (fname, pat, cnt))
+            text = text[:a] + nb + text[b:]
+            toks = tokenize(text)
+            i, lb, rb = find_function(toks, fname)
+            report.setdefault('rewrites', []).append('%s: %s' % (fname, reason))
         loops = function_loops(toks, lb, rb)
         lspecs = fs.get('loops', {})
         n_loops = len(loops)
